@@ -27,6 +27,24 @@ func BuildUDPHeaderForVerif(dstHost string, dstPort int, payload []byte) []byte 
 	return (&UDPRelay{}).buildUDPHeader(dstHost, dstPort, payload)
 }
 
+// NewUDPHeaderCodecForVerif returns one relay object to parse/build a whole
+// SEQUENCE of datagrams on, as one UDP association does: whatever state a
+// relay keeps between datagrams is carried from one call to the next. It has
+// no socket and no goroutines.
+func NewUDPHeaderCodecForVerif() *UDPRelay {
+	return &UDPRelay{sessions: make(map[string]*udpSession)}
+}
+
+// ParseUDPHeaderForVerif parses on this relay (state carried over).
+func (r *UDPRelay) ParseUDPHeaderForVerif(data []byte) (string, int, []byte, error) {
+	return r.parseUDPHeader(data)
+}
+
+// BuildUDPHeaderForVerif encodes on this relay (state carried over).
+func (r *UDPRelay) BuildUDPHeaderForVerif(dstHost string, dstPort int, payload []byte) []byte {
+	return r.buildUDPHeader(dstHost, dstPort, payload)
+}
+
 // ---- UDP relay seam -------------------------------------------------------
 //
 // UDPRelay.udpConn is typed *net.UDPConn, a kernel socket that cannot live in
